@@ -93,7 +93,70 @@ def rule_v1(chk: Check) -> None:
                 recv = method_call(c)[0]
                 if not n.stack or (isinstance(recv, ast.Name) and _is_buffer_line(recv.id, n.func.node)):
                     return True
+                if n.stack and isinstance(recv, ast.Name) and recv.id in n.func.params:
+                    # helper parameter bound to (a copy of) the buffered line at the call site
+                    from ..flow import _bindings
+
+                    enter = g.nodes[n.stack[-1]]
+                    arg = _bindings(enter).get(recv.id)
+                    if arg is not None and any(isinstance(x, ast.Name) and _is_buffer_line(x.id, enter.func.node) for x in walk(arg)):
+                        return True
         return False
+
+    def _none_on_failure(n):
+        """For a decode inside an inlined helper whose failure path returns None
+        (instead of raising): the edges of the caller's tests on the helper's
+        result that mean 'a value was returned'.  They cannot be taken after
+        the failure edge of the decode."""
+        if not n.stack:
+            return set()
+        exc_starts = [b for b, lab in g.succ[n.id] if lab in ("exc", "raise")]
+        if not exc_starts:
+            return set()
+        seen_, todo_ = set(exc_starts), list(exc_starts)
+        rets = []
+        while todo_:
+            a = todo_.pop()
+            an = g.nodes[a]
+            if an.stack[: len(n.stack)] != n.stack:
+                continue  # left the helper's activation
+            if an.kind == "stmt" and isinstance(an.ast, ast.Return) and an.stack == n.stack:
+                rets.append(an)
+                continue
+            if an.kind in ("exit", "raise_exit", "call_return") and an.stack == n.stack[:-1]:
+                continue
+            for b, lab in g.succ[a]:
+                if b not in seen_:
+                    seen_.add(b)
+                    todo_.append(b)
+        if not rets or not all(r.ast.value is None or (isinstance(r.ast.value, ast.Constant) and r.ast.value.value is None) for r in rets):
+            return set()
+        enter = g.nodes[n.stack[-1]]
+        call = enter.ast
+        var = None
+        for st in walk(enter.func.node):
+            if isinstance(st, ast.Assign) and len(st.targets) == 1 and isinstance(st.targets[0], ast.Name):
+                v = st.value
+                while isinstance(v, ast.Await):
+                    v = v.value
+                if v is call:
+                    var = st.targets[0].id
+        if var is None:
+            return set()
+        out = set()
+        for t in g.nodes:
+            if t.kind != "test" or t.stack != enter.stack or t.ast is None:
+                continue
+            e, value_label = t.ast, None
+            if isinstance(e, ast.Compare) and len(e.ops) == 1 and dotted(e.left) == var and isinstance(e.comparators[0], ast.Constant) and e.comparators[0].value is None:
+                value_label = "F" if isinstance(e.ops[0], ast.Is) else ("T" if isinstance(e.ops[0], ast.IsNot) else None)
+            elif isinstance(e, ast.UnaryOp) and isinstance(e.op, ast.Not) and dotted(e.operand) == var:
+                value_label = "F"
+            elif dotted(e) == var:
+                value_label = "T"
+            if value_label:
+                out |= {(t.id, b, lab) for b, lab in g.succ[t.id] if lab == value_label}
+        return out
 
     decodes = [n for n in g.nodes if n.ast is not None and n.kind == "stmt" and _line_decode(n)]
     lentests = [n for n in g.nodes if n.kind == "test" and n.ast is not None and any(isinstance(x, ast.Name) and x.id == "MAX_REQUEST_SIZE" for x in walk(n.ast)) and "url_line" in norm(n.ast)]
@@ -111,7 +174,31 @@ def rule_v1(chk: Check) -> None:
         # latches that are only ever set behind this validation carry it into
         # later activations (Titan content arrives in further reads): a truthy
         # test of such a latch counts as having passed the validation
-        par0 = g.reach([g.entry.id], blocked_edges=blocked_edges)
+        # failure signalled by a None result: after the failure edge of such a validator
+        # the caller's "a value was returned" edges are infeasible (two-state reachability)
+        after_fail = set()
+        for n in nodes:
+            after_fail |= _none_on_failure(n)
+        fail_nodes = {n.id for n in nodes}
+
+        def reach2(blocked):
+            if not after_fail:
+                return g.reach([g.entry.id], blocked_edges=blocked)
+            par_, dq = {g.entry.id: None}, [(g.entry.id, False)]
+            seen2 = {(g.entry.id, False)}
+            while dq:
+                a, failed = dq.pop()
+                for b, lab in g.succ[a]:
+                    if (a, b, lab) in blocked or (failed and (a, b, lab) in after_fail):
+                        continue
+                    f2 = failed or (a in fail_nodes and lab in ("exc", "raise"))
+                    if (b, f2) not in seen2:
+                        seen2.add((b, f2))
+                        par_.setdefault(b, (a, lab))
+                        dq.append((b, f2))
+            return par_
+
+        par0 = reach2(blocked_edges)
         set_sites: dict[str, list] = {}
         for n in g.nodes:
             if n.kind == "stmt" and isinstance(n.ast, (ast.Assign, ast.AnnAssign)):
@@ -142,7 +229,7 @@ def rule_v1(chk: Check) -> None:
                 for b, lab in g.succ[n.id]:
                     if lab == "T":
                         blocked_edges.add((n.id, b, lab))
-        par = g.reach([g.entry.id], blocked_edges=blocked_edges)
+        par = reach2(blocked_edges)
         hit = [d for d in disp if d in par]
         ok = not hit
         if not ok:
@@ -154,8 +241,8 @@ def rule_v1(chk: Check) -> None:
             )
         chk.ob("V1", f"{name} dominates dispatch", ok, f"{len(nodes)} sites; latches carrying it: {sorted(validated)}", evals=len(disp))
 
-    must_pass("request parser", parsers, (None,))
-    must_pass("UTF-8 decode", decodes, (None,))
+    must_pass("request parser", parsers, (None, "ret"))
+    must_pass("UTF-8 decode", decodes, (None, "ret"))
     must_pass("line-length test", lentests, ("F",))
 
 
@@ -186,6 +273,11 @@ def rule_v2(chk: Check) -> None:
         "user name": ({}, {f"{P}.username": lit("user"), f"{P}.netloc": lit("user@example.org")}),
         "password": ({}, {f"{P}.password": lit("secret"), f"{P}.netloc": lit(":secret@example.org")}),
         "fragment": ({}, {f"{P}.fragment": lit("frag")}),
+        # urlsplit/urlparse delete TAB, CR and LF anywhere in the string (library fact): a line
+        # with such a character is not a URL, and what would be parsed is not what was sent
+        "a TAB inside the path (urlparse deletes it)": ({param: lit("gemini://example.org/a\tb")}, {f"{P}.path": lit("/ab")}),
+        "a LF inside the query (urlparse deletes it)": ({param: lit("gemini://example.org/?x\ny")}, {f"{P}.query": lit("xy")}),
+        "a lone CR inside the path (urlparse deletes it)": ({param: lit("gemini://example.org/a\rb")}, {f"{P}.path": lit("/ab")}),
     }
 
     def outcomes(init, oracle):
@@ -268,6 +360,36 @@ def rule_v2(chk: Check) -> None:
     if not oki:
         chk.finding("V2", tf.key, "titan-guard:integer-size", "the Titan request parser does not reject a non-integer size (int() failure must end in ValueError)", tf.loc())
     chk.ob("V2", "Titan parser rejects a non-integer size", oki)
+    # int() alone is too lenient for "a well-formed size": it accepts '1_0', ' +5 ', '٥' ...
+    # the text must first be tested to be ASCII digits (optionally signed: negatives are
+    # refused with their own message)
+    oks = False
+    for n in ints:
+        ic = next(c for c in calls(n.ast) if dotted(c.func) == "int")
+        var = dotted(ic.args[0]) if ic.args else None
+        if var is None:
+            continue
+        blocked = set()
+        for t in g2.nodes:
+            if t.kind != "test" or t.ast is None or t.stack != n.stack:
+                continue
+            a, flip = t.ast, False
+            while isinstance(a, ast.UnaryOp) and isinstance(a.op, ast.Not):
+                a, flip = a.operand, not flip
+            txt = norm(a)
+            strict = False
+            if isinstance(a, ast.Call) and (dotted(a.func) or "").split(".")[-1] in ("fullmatch", "match") and var in txt and any(isinstance(x, ast.Constant) and isinstance(x.value, str) and "[0-9]" in x.value for x in walk(a)):
+                strict = True
+            if isinstance(a, ast.BoolOp) and isinstance(a.op, ast.And) and var in txt and ".isascii()" in txt and (".isdigit()" in txt or ".isdecimal()" in txt):
+                strict = True
+            if strict:
+                lab = "F" if flip else "T"
+                blocked |= {(t.id, b, l2) for b, l2 in g2.succ[t.id] if l2 == lab}
+        if blocked and n.id not in g2.reach([g2.entry.id], blocked_edges=blocked):
+            oks = True
+    if not oks:
+        chk.finding("V2", tf.key, "titan-guard:integer-size-strict", "the Titan size is handed to int() without first being tested to consist of ASCII digits: int() also accepts '1_0', ' +5 ', '+5' and non-ASCII digits such as '٥', so request lines whose size is not well-formed reach the upload handler", tf.loc())
+    chk.ob("V2", "Titan size text is ASCII digits before int()", oks)
     # the base URL goes through parse_url
     okb = any((dotted(c.func) or "").split(".")[-1] == "parse_url" for c in calls(tf.node))
     if okb:
@@ -394,6 +516,44 @@ def _threshold(proj, mi, cmp: ast.Compare, fn: ast.AST | None = None):
     return None
 
 
+def _measured_root(fi, e: ast.AST, depth: int = 0) -> ast.AST | None:
+    """The expression whose length a comparison measures, when it is *derived*
+    from the input (an attribute of a local object, a call result); None when
+    it is a parameter, the read buffer, or not resolvable."""
+    if depth > 6:
+        return None
+    if isinstance(e, ast.BinOp):
+        return _measured_root(fi, e.left, depth + 1) or _measured_root(fi, e.right, depth + 1)
+    if isinstance(e, ast.Constant):
+        return None
+    if isinstance(e, ast.Call) and dotted(e.func) == "len" and e.args:
+        return _measured_root(fi, e.args[0], depth + 1)
+    if isinstance(e, ast.Call) and method_call(e) and method_call(e)[1] == "encode":
+        return _measured_root(fi, method_call(e)[0], depth + 1)
+    if isinstance(e, ast.Name):
+        if e.id in fi.params:
+            return None
+        ds = [st.value for st in walk(fi.node) if isinstance(st, ast.Assign) and len(st.targets) == 1 and isinstance(st.targets[0], ast.Name) and st.targets[0].id == e.id]
+        if len(ds) == 1:
+            return _measured_root(fi, ds[0], depth + 1)
+        return None
+    if isinstance(e, ast.Attribute):
+        d = dotted(e) or ""
+        if d.startswith("self."):
+            return None
+        base = e
+        while isinstance(base, ast.Attribute):
+            base = base.value
+        if isinstance(base, ast.Name) and base.id in fi.params:
+            return None
+        return e
+    if isinstance(e, ast.Call):
+        if any(isinstance(x, ast.Attribute) and (dotted(x) or "").startswith("self.buffer") for x in walk(e)):
+            return None
+        return e
+    return None
+
+
 def rule_v4(chk: Check) -> None:
     chk.rule("V4", "all request-length comparisons use the single constant 1024 and reject exactly lines longer than 1022 bytes (+CRLF)")
     cm = chk.proj.module("protocol.constants")
@@ -425,6 +585,17 @@ def rule_v4(chk: Check) -> None:
         if not good:
             chk.finding("V4", fi.key, f"limit:{txt[:60]}", f"length check `{txt}`: {why}", fi.loc(cmp))
         chk.ob("V4", f"{fi.key}: {txt}", good, why)
+        # what is measured is what was received: the limit is a limit on the request line
+        # (the function's input / the read buffer), not on a form derived from it
+        root = _measured_root(fi, cmp.left)
+        derived = root is not None
+        if derived:
+            chk.finding(
+                "V4", fi.key, f"limit-on-derived:{norm(root)[:50]}",
+                f"length check `{txt}` measures `{norm(root)}`, a value derived from the request line, not the line itself: a derived form can be longer than what was received (normalisation turns an empty path into '/'), so a protocol-valid line of exactly the maximum length is refused with 59",
+                fi.loc(cmp),
+            )
+        chk.ob("V4", f"{fi.key}: `{txt}` measures the received line itself", not derived)
 
 
 def run(chk: Check) -> None:
@@ -442,9 +613,15 @@ def run(chk: Check) -> None:
     segmentation_rules(chk, "V5", chk.proj.func(SERVER_PROTO + ".data_received"))
     # V6: on the PyOpenSSL backend every decrypted record reaches the protocol (= C07.S4):
     # a valid request sent as several TLS records must not be held back
+    from .c01 import rule_w10
     from .c07 import rule_s4
     from .common import reuse
 
+    reuse(chk, rule_w10, "V7", "the refusal itself can always be sent: building the 59 / 50 response from a message that echoes the request line cannot raise out of the callback (= C01.W10)", ("W10",))
+
+    from .c19 import received_line_fidelity
+
+    received_line_fidelity(chk, "V8", "a protocol-valid request reaches the handler with a path / query other than the one sent")
     reuse(chk, rule_s4, "V6", "PyOpenSSL pump: every decrypted record is handed to the protocol and the pump keeps reading until the engine has nothing left (= C07.S4)", ("S4",))
     chk.trusted = ["CPython ast parser", "engine CFG / inliner / abstract evaluator", "urllib.parse.urlparse field semantics (hostname, username, password, fragment, port)"]
     chk.assumptions = ["acceptance of every grammatical URL is not decided (only C19's bracket clause)"]
